@@ -173,13 +173,29 @@ Fixpoint lower_rets (s : st) (ts : list sty) : option (list ty * st) :=
               end
   end.
 
+(* ast::LifetimeEnv is built from the *written* types before any of this runs: behind an elided borrow no `&'a T<'b>`
+   bound is recorded even when elision then resolves the borrow to a named lifetime.  Model.ty's first flag stands for
+   exactly that ("no implied bound recorded"), so it is set on such return types.  Not expressible with that flag, and
+   kept out of the generated correspondence inputs: a *written* borrow over elided arguments (`-> &'a T<'_>`), where
+   the AST records the bound for the written arguments only. *)
+Definition mark (t : sty) (p : ty) : ty :=
+  match t, p with
+  | SOpaque _ _ (Some AAnon) _ _ _, TOpaque _ opt b tid args => TOpaque true opt b tid args
+  | _, _ => p
+  end.
+Fixpoint marks (ts : list sty) (ps : list ty) : list ty :=
+  match ts, ps with
+  | t :: tr, p :: pr => mark t p :: marks tr pr
+  | _, _ => ps
+  end.
+
 (* the whole method: the lowered signature and LifetimeEnv::num_lifetimes *)
 Definition lower_sig (g : ssig) : option (msig * nat) :=
   let '(ps0, s0) := lower_self (s_n g) (s_self g) in
   let '(ps, s1) := lower_params s0 (s_params g) in
   match lower_rets s1 (s_ret g) with
   | None => None
-  | Some (rs, s2) => Some (mkSig (s_n g) (s_decl g) (ps0 ++ ps) rs, num s2)
+  | Some (rs, s2) => Some (mkSig (s_n g) (s_decl g) (ps0 ++ ps) (marks (s_ret g) rs), num s2)
   end.
 
 (* ---------- Rust's rule, stated without the state machine ---------- *)
